@@ -35,6 +35,13 @@ PROPS = {
         trusted=RECEIVER_TRUST,
         assumptions=["types without '-' (stated restriction); collision witness for types with '-' is a theorem"],
     ),
+    "C11": dict(
+        components=[("route", 1500, 50000)],
+        shrink=False,
+        trusted=["a real Executor is built with executor.New(WithConfig) from harness-owned source and node types; Receive calls are recorded by the nodes",
+                 "ContextAware.Subscribe/AcceptsMessage are exercised through the real embedded type"],
+        assumptions=["error handlers are not part of the processing tree for message routing (the walk does not visit them); disabled nodes are not in the tree"],
+    ),
     "C13": dict(
         components=[("config", 2000, 60000)],
         shrink=False,
